@@ -578,7 +578,7 @@ def specs_for(name: str, tier: str, seed: int) -> List[dict]:
         out.append({"g": name, "src": "parsed", "label": label, "spec": ["parsed", text]})
     rng = random.Random(f"{seed}:{name}:c09")
     gen = Gen(prof, rng)
-    n_random = {"quick": 16, "thorough": 150}[tier]
+    n_random = {"quick": 12, "thorough": 60}[tier]
     seen = set()
     tries = 0
     while len(seen) < n_random and tries < 50 * n_random:
